@@ -36,6 +36,13 @@ type Job struct {
 	// complaint of the Byzantine participant against an honest dealer (round 1 or 2): "a bad dealer
 	// that also accuses somebody" needs one deviation more than the bad dealing itself.
 	PlusComplaint bool
+	// TripleReps: additionally all scripts of THREE deviations on distinct slots, drawn from one
+	// representative per behaviour class of each slot. Two variants of one slot are in one class
+	// when their single-deviation explorations are indistinguishable (same state-space sizes under
+	// every network variant and the same set of terminal outcome classes); this is a heuristic
+	// reduction of the grammar for the third deviation only - scripts with <= D deviations are
+	// still taken from the full grammar.
+	TripleReps bool
 }
 
 type replayFile struct {
@@ -155,11 +162,11 @@ func Run(run *ev.Run, prop string, jobs []Job) {
 	run.Set("jobs", jobInfo)
 	var statsMu sync.Mutex
 	perCfg := map[string][3]int64{}
-	ev.Par(len(units), func(i int) {
+	explore := func(i int, u unit) string {
 		if run.Expired() {
-			return
+			return ""
 		}
-		u := units[i]
+		sig := ""
 		outs := map[string]bool{}
 		// network variants: explore with every reactive honest broadcast landing in its own round;
 		// if such broadcasts occur at all, also with the answers / the complaints / both landing one
@@ -193,6 +200,7 @@ func Run(run *ev.Run, prop string, jobs []Job) {
 			}
 			run.Add("states", int64(rep.States))
 			run.Add("transitions", int64(rep.Transitions))
+			sig += fmt.Sprintf("net%d:%d/%d;", net, rep.States, rep.Transitions)
 			if net != 0 {
 				run.Add("explorations_with_round_slip", 1)
 			}
@@ -228,7 +236,72 @@ func Run(run *ev.Run, prop string, jobs []Job) {
 		if len(u.sc) > 0 {
 			run.Distinct(cfg.String() + "/" + u.sc.String())
 		}
+		var oc []string
+		for o := range outs {
+			oc = append(oc, outcomeClass(o))
+		}
+		sort.Strings(oc)
+		return sig + strings.Join(oc, "|")
+	}
+	var sigMu sync.Mutex
+	sigs := map[*Job]map[dkgsys.Deviation]string{}
+	ev.Par(len(units), func(i int) {
+		u := units[i]
+		sg := explore(i, u)
+		if u.job.TripleReps && len(u.sc) == 1 && sg != "" {
+			sigMu.Lock()
+			if sigs[u.job] == nil {
+				sigs[u.job] = map[dkgsys.Deviation]string{}
+			}
+			sigs[u.job][u.sc[0]] = sg
+			sigMu.Unlock()
+		}
 	})
+	// second stage: triples over class representatives
+	var units2 []unit
+	for i := range jobs {
+		j := &jobs[i]
+		if !j.TripleReps || run.Expired() {
+			continue
+		}
+		g := dkgsys.Grammar(&j.Cfg)
+		var reps []dkgsys.Deviation
+		seenClass := map[string]bool{}
+		for _, d := range g { // grammar order: the first variant of a class represents it
+			sg, ok := sigs[j][d]
+			if !ok {
+				continue
+			}
+			k := fmt.Sprintf("%d/%s/%s", d.Z, d.Slot, sg)
+			if !seenClass[k] {
+				seenClass[k] = true
+				reps = append(reps, d)
+			}
+		}
+		n3 := 0
+		for a := 0; a < len(reps); a++ {
+			for b := a + 1; b < len(reps); b++ {
+				for e := b + 1; e < len(reps); e++ {
+					x, y, z := reps[a], reps[b], reps[e]
+					if (x.Z == y.Z && x.Slot == y.Slot) || (x.Z == z.Z && x.Slot == z.Slot) || (y.Z == z.Z && y.Slot == z.Slot) {
+						continue
+					}
+					units2 = append(units2, unit{j, dkgsys.Script{x, y, z}})
+					n3++
+				}
+			}
+		}
+		var rn []string
+		for _, d := range reps {
+			rn = append(rn, d.String())
+		}
+		jobInfo[i]["three_deviation_scripts_over_class_representatives"] = n3
+		jobInfo[i]["class_representatives"] = rn
+	}
+	if len(units2) > 0 {
+		run.Set("jobs", jobInfo)
+		ev.Par(len(units2), func(i int) { explore(len(units)+i, units2[i]) })
+	}
 	run.Set("per_config_states_transitions_scripts", perCfg)
 	run.Set("distinct_terminal_outcome_classes", c.outcomes)
 	run.Set("traces_validated_against_impl", c.validated)
